@@ -2,12 +2,12 @@ package c13
 
 import (
 	"bytes"
-	"io"
-	"strings"
 	"context"
 	"encoding/json"
 	"errors"
 	"fmt"
+	"io"
+	"strings"
 	"sync"
 	"testing"
 	"time"
